@@ -248,7 +248,8 @@ def rev8(b):
 def hfe_side_bytes(cells, encoding, ops=None):
     """HFE stores cells LSB-first; FM is stored at double rate (raw bit 2i = 0,
     2i+1 = cell i).  ops (HFEv3 only): {data_byte_index: [(kind, arg), ...]} with
-    kinds nop / setindex / setbitrate(arg) / skipbits(arg & 7 = number of bits of the
+    kinds nop / setindex / setbitrate(arg) / rand(arg = number of consecutive bytes replaced by the RAND opcode) /
+    skipbits(arg & 7 = number of bits of the
     following byte that carry no data, arg >> 3 = the don't-care content of those bits;
     the remaining 8-(arg&7) bits continue the cell stream)."""
     if encoding == "FM":
@@ -268,8 +269,12 @@ def hfe_side_bytes(cells, encoding, ops=None):
             if c:
                 b |= 1 << i
         return b
+    rand_left = 0
     while pos < n:
         for kind, arg in ops.get(nbytes, ()):
+            if kind == "rand":
+                rand_left = max(rand_left, int(arg))      # this and the next arg-1 bytes are RAND (weak) bytes
+                continue
             if kind == "nop":
                 out.append(rev8(0xF0))
             elif kind == "setindex":
@@ -286,6 +291,13 @@ def hfe_side_bytes(cells, encoding, ops=None):
                 pos += 8 - k
                 bits += [0] * (8 - len(bits))
                 out.append(pack(bits))
+        if rand_left > 0:
+            # HFEv3 RAND opcode (F4): stands for one byte of weak cells; the recorded cells are gone
+            out.append(rev8(0xF4))
+            pos += 8
+            nbytes += 1
+            rand_left -= 1
+            continue
         bits = list(raw[pos:pos + 8])
         pos += 8
         bits += [0] * (8 - len(bits))
